@@ -927,8 +927,8 @@ struct Budget {
 }
 fn budget(tier: Tier) -> Budget {
     match tier {
-        Tier::Quick => Budget { runs: 16000 },
-        Tier::Thorough => Budget { runs: 800000 },
+        Tier::Quick => Budget { runs: driver::scale(16000) },
+        Tier::Thorough => Budget { runs: driver::scale(800000) },
     }
 }
 
